@@ -98,7 +98,7 @@ def check(prog) -> Dict[str, Any]:
 
 
 EPR_KINDS = ["create_keep", "recv_keep", "create_measure", "recv_measure", "recv_keep_seq", "create_keep_seq", "create_keep_minfid", "recv_keep_minfid", "recv_rsp", "create_rsp",
-             "array_undefine", "create_context", "recv_context"]
+             "array_undefine", "create_context", "recv_context", "meas16_registers"]
 
 
 @st.composite
@@ -129,7 +129,17 @@ def check_epr(case) -> Dict[str, Any]:
     for i, (k, n) in enumerate(case["epr_ops"]):
         try:
             role = "create" if k.startswith("create") else "recv"
-            if k in ("create_context", "recv_context"):
+            if k == "meas16_registers":
+                # one flush window that holds 16 measurement outcomes in registers at once (all M registers), then flushes
+                from netqasm.sdk.qubit import Qubit
+
+                conn.flush()
+                q16 = Qubit(conn)
+                hs = [q16.measure(inplace=True, store_array=False) for _ in range(15)] + [q16.measure(store_array=False)]
+                conn.flush()
+                if [int(h) for h in hs] != [0] * 16:
+                    raise Failure("meas16:values", case, f"16 register-stored outcomes of one qubit in |0> read {[int(h) for h in hs]}")
+            elif k in ("create_context", "recv_context"):
                 if case["hardware"] == "nv":
                     n = 1  # >=2 pairs on NV hardware never completes (the ids array names a pre-allocated memory qubit; C10's open finding)
                 with getattr(sock, k)(number=n) as (q, pair):
